@@ -131,8 +131,16 @@ func (x *Exec) callFunc(callee *types.Func, recvExpr ast.Expr, e *ast.CallExpr, 
 	if sig.Variadic() && !e.Ellipsis.IsValid() {
 		x.unsupported(e, "variadic call without ... is not supported")
 	}
-	for _, a := range e.Args {
-		args = append(args, x.expr(a, st))
+	for i, a := range e.Args {
+		v := x.expr(a, st)
+		// implicit conversion to an interface-typed parameter
+		if i < sig.Params().Len() {
+			pty := x.w.goTy(sig.Params().At(i).Type(), x.model.BV)
+			if pty.K == TOpaque && v.Ty.K != TOpaque {
+				v = x.toInterface(v, pty, a)
+			}
+		}
+		args = append(args, v)
 	}
 	var res []Val
 	switch {
@@ -177,6 +185,14 @@ func (x *Exec) callByKey(callee *types.Func, recv *Val, args []Val, e *ast.CallE
 			return []Val{x.pureCall(key, sig, recv, args)}
 		}
 		x.unsupported(e, "call to %s, which has no contract", key)
+	}
+	if !fc.Inline && !fc.Assume && fc.Model != "" && modelByName(fc.Model).Float != x.model.Float && x.usesFloat(sig) {
+		// the callee is specified in another arithmetic model and has no
+		// restated variant: execute its body in the caller's model
+		if fi := x.eng.funcs[key]; fi != nil {
+			x.notes = append(x.notes, x.key+": "+key+" inlined (specified in model "+fc.Model+", caller in "+x.model.Name+")")
+			return x.inlineFunc(fi, fc, recv, args, e, st)
+		}
 	}
 	if fc.Inline {
 		fi := x.eng.funcs[key]
